@@ -7,6 +7,8 @@ func init() {
 		NotDecided:  "By-value vs by-pointer equivalence (whether reflect stores a dynamic type indirectly in the interface is a runtime ABI fact: by-value pointer-shaped structs crash, described in DESIGN.md, no rule reports it); map-order determinism is excluded by the property.",
 		Assumptions: []string{"A4", "A5"},
 		Run: func(c *Ctx) {
+			// round 13: Marshal follows one level of pointer only
+			ruleMarshalDeref(c)
 			ruleAppendOnly(c)
 			ruleEncodeRO(c)
 			rulePure(c)
